@@ -140,6 +140,25 @@ theorem caps_conserve {env : VEnv} {cs : CapList} {kt kt' : Int} {cur cur' : Fun
       sumAmt new + total cur'.parts = total cur.parts ∧ NonNeg cur'.parts ∧ cur'.asset = cur.asset :=
   evalCaps_conserves env cs kt kt' cur cur' st st' h hf
 
+/-- `dest_cap_respected`: `max [A m] to d` inside an ordered destination hands `d` exactly `min m (what is left)`,
+so the postings `d` emits never exceed the cap -/
+theorem dest_cap_respected {env : VEnv} {cap : Expr} {kd : KeptOrDest} {rest : CapList} {kt kt' : Int}
+    {cur cur' : Fund} {st st' : St} {ma : Asset} {mn : Int}
+    (h : evalCaps env (.cons cap kd rest) kt cur st = .ok (kt', cur', st')) (hm : evalMon env cap = .ok (ma, mn))
+    (hf : NonNeg cur.parts) :
+    ∃ k st1 new, evalKD env kd ⟨cur.asset, (takeMax cur.parts mn).1⟩ st = .ok (k, st1) ∧
+      total (takeMax cur.parts mn).1 = min mn (total cur.parts) ∧
+      st1.postings = st.postings ++ new ∧ sumAmt new ≤ mn ∧ 0 ≤ mn := by
+  obtain ⟨ma', mn', k, st1, m, hm', hmn, _, hk, _, _, _⟩ := evalCaps_cons_inv h
+  rw [hm] at hm'
+  simp only [Except.ok.injEq, Prod.mk.injEq] at hm'
+  obtain ⟨rfl, rfl⟩ := hm'
+  have hle := takeMax_le cur.parts mn hmn hf
+  obtain ⟨new, hp, _, hs, hk', _⟩ :=
+    evalKD_conserves env kd ⟨cur.asset, (takeMax cur.parts mn).1⟩ k st st1 hk (takeMax_nonneg cur.parts mn hf).1
+  have := total_nonneg hk'
+  exact ⟨k, st1, new, hk, hle.2, hp, by simp only at hs; omega, hmn⟩
+
 theorem allot_conserves {env : VEnv} {items : AllotList} {parts : List Int} {cur r : Fund} {st st' : St}
     (h : evalAllot env items parts cur st = .ok (r, st')) (hf : NonNeg cur.parts) :
     ∃ new, st'.postings = st.postings ++ new ∧ (∀ p ∈ new, 0 ≤ p.amt ∧ p.asset = cur.asset) ∧
